@@ -61,14 +61,14 @@ func (r Run) Do() (*Obs, error) {
 		}
 	}
 	for _, p := range r.Plugins {
-		if err := os.Symlink(r.Fakeplugin, filepath.Join(bin, "thriftrw-plugin-"+p.Name)); err != nil {
+		if err := os.Symlink(r.Fakeplugin, filepath.Join(bin, "thriftrw-plugin-"+p.Name)); err != nil && !os.IsExist(err) {
 			return nil, err
 		}
 		b, err := json.Marshal(p.Script)
 		if err != nil {
 			return nil, err
 		}
-		if err := os.WriteFile(filepath.Join(scripts, p.Name+".json"), b, 0o644); err != nil {
+		if err := os.WriteFile(filepath.Join(scripts, p.ID()+".json"), b, 0o644); err != nil {
 			return nil, err
 		}
 	}
@@ -333,7 +333,7 @@ func ReadEvents(path string) ([]Event, error) {
 	return evs, nil
 }
 
-// Of returns the events of one plugin, in order.
+// Of returns the events of one plugin process (name = Plugin.ID), in order.
 func Of(evs []Event, name string) []Event {
 	var out []Event
 	for _, e := range evs {
@@ -348,6 +348,11 @@ func Of(evs []Event, name string) []Event {
 func PluginArgs(ps []Plugin) []string {
 	var a []string
 	for _, p := range ps {
+		if p.Instance != "" {
+			// the flag value is split like a shell command line
+			a = append(a, "--plugin="+p.Name+" --instance="+p.Instance)
+			continue
+		}
 		a = append(a, "--plugin="+p.Name)
 	}
 	return a
